@@ -1553,11 +1553,18 @@ class VM:
             """Create a bound function with fixed this and optional partial args."""
             bound_this = args[0] if args else UNDEFINED
             bound_args = list(args[1:]) if len(args) > 1 else []
+            target = func
+            if hasattr(func, "_original_func"):
+                # Binding a bound function: its this stays, the arguments add up,
+                # and the new function wraps the original one directly
+                target = func._original_func
+                bound_this = func._bound_this
+                bound_args = list(func._bound_args) + bound_args
 
             # Create a new function that wraps the original
             bound_func = JSFunction(
                 name=func.name,
-                params=func.params[
+                params=target.params[
                     len(bound_args) :
                 ],  # Remaining params after bound args
                 bytecode=func.bytecode,
@@ -1571,7 +1578,7 @@ class VM:
             # Store binding info on the function
             bound_func._bound_this = bound_this
             bound_func._bound_args = bound_args
-            bound_func._original_func = func
+            bound_func._original_func = target
             return bound_func
 
         def call_fn(*args):
